@@ -17,12 +17,23 @@
    (st = <<c, ps, bs, pp, bp, cancels, held>>), every snapshot label the peer want-haves the
    no-HAVE filter dropped with what was on the sent lists (st = <<c, ps, bs>>): the runner
    classifies the schedules by these (which kind met which, on which list) and replays the same
-   number per class, so the class coverage is reported from the model, not guessed.             *)
+   number per class, so the class coverage is reported from the model, not guessed.
+
+   Family "burst" (several CIDs, SMALL message limits): every call is about 2..|Cids| CIDs at once
+   (broadcast / want-block / want-have / block+have wants, cancels of all / all but one / one CID),
+   so a cycle regularly cannot take everything that is queued.  What keeps the protocol alive
+   then is the loop's re-signal after a send (Count: pendingWorkCount > 0) -- nothing else happens
+   in the drain gap and after the closing cancel-of-everything, so Converged / WantNeverUnsent /
+   CancelNeverLeftActive are evaluated at an Idle that only the re-signals can have reached.
+   Every Count that leaves work behind is labelled ("N", not executed by the harness:
+   st = <<#pending broadcast, #pending peer wants, #queued cancels, limit>>); the runner stratifies
+   by WHICH kind of backlog was the reason for the re-signal (cancels only, peer wants only, ...). *)
 EXTENDS BitswapMQ, Json
 
 CONSTANTS NCalls,    \* producer calls before the closing cancel
           Wide,      \* two-CID calls as well (needs Cids = {1, 2}); else every call is about CID 1
-          MaxNs      \* message limits (entries) to enumerate
+          MaxNs,     \* message limits (entries) to enumerate
+          Family     \* "mix" (above) | "burst": MORE requests than fit into one message, then silence (below)
 
 VARIABLES hist, mode
 gvars == <<vars, hist, mode>>
@@ -32,11 +43,17 @@ Rec(x) == hist' = Append(hist, x)
 LabL(st) == Lab("L", <<>>, <<>>, <<>>, st)
 
 Call(op, wb, wh, ks) == [op |-> op, wb |-> wb, wh |-> wh, ks |-> ks]
-Calls == {Call("bcst", <<>>, <<>>, <<1>>), Call("wants", <<1>>, <<>>, <<>>), Call("wants", <<>>, <<1>>, <<>>),
+MixCalls == {Call("bcst", <<>>, <<>>, <<1>>), Call("wants", <<1>>, <<>>, <<>>), Call("wants", <<>>, <<1>>, <<>>),
           Call("cancels", <<>>, <<>>, <<1>>), Call("wants", <<1>>, <<1>>, <<>>)}
          \cup (IF Wide THEN {Call("bcst", <<>>, <<>>, <<1, 2>>), Call("wants", <<1>>, <<2>>, <<>>),
                              Call("wants", <<2>>, <<1>>, <<>>), Call("cancels", <<>>, <<>>, <<1, 2>>)}
                ELSE {})
+Up(n) == [i \in 1..n |-> i]
+NC == Cardinality(Cids)
+BurstCalls == {Call("bcst", <<>>, <<>>, Up(NC)), Call("wants", Up(NC), <<>>, <<>>), Call("wants", <<>>, Up(NC), <<>>),
+               Call("wants", <<1>>, Tail(Up(NC)), <<>>),
+               Call("cancels", <<>>, <<>>, Up(NC)), Call("cancels", <<>>, <<>>, Up(NC - 1)), Call("cancels", <<>>, <<>>, <<NC>>)}
+Calls == IF Family = "burst" THEN BurstCalls ELSE MixCalls
 Touched(o) == o.wh \o o.wb \o o.ks
 Fl(s) == IF MeetsCancel(s) THEN "ReAdd" \in AsBuilt ELSE FALSE
 Sec(o) == CASE o.op = "bcst" -> BcstSection(o.ks, Fl(o.ks))
@@ -80,7 +97,13 @@ GLoopStep ==
          \/ /\ pc = "build" /\ snapC # doneC
             /\ BuildCancel(CHOOSE c \in snapC \ doneC : \A d \in snapC \ doneC : c <= d) /\ Rec(LabL(<<>>))
          \/ (BuildPeer \/ BuildBcst \/ Send) /\ Rec(LabL(<<>>))
-         \/ (BuildNone \/ OnSent \/ Count \/ Finish({})) /\ UNCHANGED hist
+         \/ (BuildNone \/ OnSent \/ Finish({})) /\ UNCHANGED hist
+         \/ /\ Count
+            /\ IF PendingWork > 0
+               THEN Rec(Lab("N", <<>>, <<>>, <<>>,
+                            <<Cardinality({c \in Cids : bp[c].t # 0}), Cardinality({c \in Cids : pp[c].t # 0}),
+                              Cardinality({c \in Cids : cancels[c] # 0}), maxN>>))
+               ELSE UNCHANGED hist
 GDrain == /\ mode \in {"drain", "final"}
           /\ IF Idle THEN /\ UNCHANGED vars /\ Rec(Lab("I", <<>>, <<>>, <<>>, <<>>))
                           /\ mode' = IF mode = "final" THEN "done" ELSE "call"
